@@ -20,6 +20,7 @@ class C27(Monitor):
         self.backlog = w.cfg['knobs'].get('CONTINUATION_BACKLOG', 64)
         self.frames = {'c': 0, 's': 0}
         self.maxes = {'streams': 0, 'closed': 0, 'hdrbuf': 0, 'inbuf': 0}
+        self.after_close = {}
 
     def on_step(self, w, s):
         e = w.eps[s.ep]
@@ -52,6 +53,17 @@ class C27(Monitor):
             self.probe('unmeasurable_streams')
             return
         self.maxes['streams'] = max(self.maxes['streams'], len(streams))
+        # a closed connection refuses every frame and call before it creates anything
+        st_name = getattr(_get(conn, 'state_machine.state'), 'name', None)
+        was = self.after_close.get(s.ep)
+        if was is not None and len(streams) > was:
+            self.probe('growth_after_close')
+            self.fail('streams-grow-after-close', 'the stream table grew on a closed connection', s,
+                      before=was, after=len(streams), frames=self.frames[s.ep])
+        if st_name == 'CLOSED':
+            if was is None:
+                self.probe('closed_connection_watched')
+            self.after_close[s.ep] = len(streams)
         if s.kind == 'call' and s.ok and s.op in ('open_inbound_streams', 'open_outbound_streams') and not trk.dead:
             # right after a garbage-collecting query only live streams may be retained
             live = sum(1 for st in trk.streams.values() if st.state != 'closed')
